@@ -25,7 +25,7 @@ var blockingKinds = []string{qadapt.KindQ, qadapt.KindAsync, qadapt.KindMux, qad
 // controlled mode
 
 type Step struct {
-	Op     string `json:"op"` // consume | add | prior | burst | close
+	Op     string `json:"op"` // consume | add | prior | burst | steal | close
 	Anyway bool   `json:"anyway,omitempty"`
 	Lane   int    `json:"lane,omitempty"`
 	N      int    `json:"n,omitempty"` // burst: number of adds issued back to back by one goroutine, no quiescence in between
@@ -69,7 +69,11 @@ func GenCtl(t *rapid.T) CaseCtl {
 			}
 			c.Steps = append(c.Steps, st)
 		case 5, 6:
-			c.Steps = append(c.Steps, Step{Op: "consume", Anyway: rapid.Bool().Draw(t, "anyway")})
+			if c.Kind == qadapt.KindSync && rapid.Bool().Draw(t, "steal") {
+				c.Steps = append(c.Steps, Step{Op: "steal"})
+			} else {
+				c.Steps = append(c.Steps, Step{Op: "consume", Anyway: rapid.Bool().Draw(t, "anyway")})
+			}
 		default:
 			c.Steps = append(c.Steps, Step{Op: "close"})
 		}
@@ -152,6 +156,7 @@ func ExecCtl(c CaseCtl) *vkit.Result {
 	for i, st := range c.Steps {
 		var expect []ret
 		var mut *vkit.Op
+		uniprocStep := false
 		var outcome qadapt.Outcome
 		wantOutcome := qadapt.Accepted
 		switch st.Op {
@@ -208,10 +213,18 @@ func ExecCtl(c CaseCtl) *vkit.Result {
 			}
 			thenClose := st.Op == "burst" && st.ThenClose && !m.closed
 			splitClose := false
+			uniproc := false
 			if thenClose && m.waitingPop > 0 {
-				// a parked plain Pop may see the item or the close first: not schedule-owned
-				thenClose, splitClose = false, true
-				res.Skip("burst-then-close-with-plain-pop-waiters")
+				if !isSync && m.waitingPop == m.waiting && m.caps[lane] == 0 {
+					// every parked consumer is a plain Pop of a pipe queue. With one P the burst goroutine adds and closes
+					// before any woken consumer can run again, so each of them must find the queue closed ("Pop fails
+					// after close even if items remain"). A mismatch is confirmed by fresh probes before it counts.
+					uniproc = true
+				} else {
+					// a parked plain Pop may see the item or the close first: not schedule-owned
+					thenClose, splitClose = false, true
+					res.Skip("burst-then-close-with-plain-pop-waiters")
+				}
 			}
 			var wants []qadapt.Outcome
 			for k := 0; k < n; k++ {
@@ -225,7 +238,7 @@ func ExecCtl(c CaseCtl) *vkit.Result {
 					wants = append(wants, qadapt.Full)
 				default:
 					wants = append(wants, qadapt.Accepted)
-					if m.waiting > 0 {
+					if m.waiting > 0 && !uniproc {
 						m.waiting--
 						expect = append(expect, ret{v: v})
 						res.Class("add-wakes-a-parked-consumer")
@@ -251,6 +264,11 @@ func ExecCtl(c CaseCtl) *vkit.Result {
 				}
 				m.waitingPop = 0
 			}
+			if uniproc {
+				res.Class("plain-pop-parked-then-add-and-close")
+				defer runtime.GOMAXPROCS(runtime.GOMAXPROCS(1))
+			}
+			uniprocStep = uniproc
 			mut = sched.Go("add", func() {
 				for k := 0; k < n; k++ {
 					if o := add(lane, 1000+100*i+k); o != wants[k] {
@@ -263,6 +281,64 @@ func ExecCtl(c CaseCtl) *vkit.Result {
 				}
 			})
 			_ = splitClose // the close is simply dropped then (a later close step may follow)
+		case "steal":
+			// sync queue only: one goroutine pushes and at once tries to pop. Either it gets its item back and every
+			// parked consumer stays parked, or one parked consumer got the item. Whatever the schedule: nobody may be
+			// told "closed" on an open queue, and the item exists once.
+			if !isSync || q.TryPop == nil || m.closed || !m.empty() {
+				res.Skip("steal-not-applicable")
+				continue
+			}
+			v := 1000 + 100*i
+			var sv int
+			var sok, sclosed bool
+			op := sched.Go("steal", func() {
+				q.Add(qadapt.LaneReq, v)
+				sv, sok, sclosed = q.TryPop()
+			})
+			sched.MustQuiesce()
+			if !op.Done() {
+				return res.Failf("producer-blocked", "step %d steal on %s: Push+TryPop is parked forever", i, c.Kind)
+			}
+			got := 0
+			if sclosed {
+				return res.Failf("closed-on-open-queue", "step %d steal on %s: TryPop reported closed on an open queue", i, c.Kind)
+			}
+			if sok {
+				if sv != v {
+					return res.Failf("wake-up", "step %d steal on %s: TryPop returned %d, the only item is %d", i, c.Kind, sv, v)
+				}
+				got++
+			}
+			parked := 0
+			for ci, cn := range cons {
+				if !cn.op.Done() {
+					parked++
+					continue
+				}
+				if cn.seen {
+					continue
+				}
+				cn.seen = true
+				if cn.err != nil || cn.closed {
+					return res.Failf("closed-on-open-queue", "step %d steal on %s: parked consumer %d returned closed=%v err=%v although the queue is open (an item was pushed and taken by someone else)", i, c.Kind, ci, cn.closed, cn.err)
+				}
+				if cn.v != v {
+					return res.Failf("wake-up", "step %d steal on %s: consumer %d returned %d, the only item is %d", i, c.Kind, ci, cn.v, v)
+				}
+				got++
+			}
+			if got != 1 {
+				return res.Failf("wake-up", "step %d steal on %s: the pushed item was handed out %d times", i, c.Kind, got)
+			}
+			if m.waiting > 0 {
+				res.Class("steal-with-parked-consumers")
+			}
+			m.waiting = parked
+			if m.waitingPop > m.waiting {
+				m.waitingPop = m.waiting
+			}
+			continue
 		case "close":
 			if firstEvent && m.waiting >= 2 {
 				res.NonTrivial = true
@@ -318,6 +394,20 @@ func ExecCtl(c CaseCtl) *vkit.Result {
 		if parked > maxParked {
 			maxParked = parked
 		}
+		if uniprocStep && !sameRets(got, expect) {
+			// a consumer got an item although the queue was closed before it could run again - or the scheduler did
+			// switch between the add and the close after all. Fresh probes decide: only if every one of them shows an
+			// item handed out after close is it a violation.
+			confirmed := true
+			for k := 0; k < 5 && confirmed; k++ {
+				confirmed = probePopAfterClose(c.Kind, len(expect))
+			}
+			if confirmed {
+				return res.Failf("pop-after-close-parked", "%s: consumers parked in Pop returned %v after an add and a Close issued back to back (one P: the close precedes their wake-up), want all closed; confirmed by 5 fresh probes", what, fmtRets(got))
+			}
+			res.Skip("uniproc-schedule-noise")
+			return res
+		}
 		if !sameRets(got, expect) {
 			site := "wake-up"
 			if st.Op == "close" {
@@ -355,6 +445,42 @@ func ExecCtl(c CaseCtl) *vkit.Result {
 		res.Class("two-or-more-parked")
 	}
 	return res
+}
+
+// probePopAfterClose parks k plain Pop consumers on a fresh queue of the kind, then - with a single P - adds an item and
+// closes from one goroutine. It reports whether some consumer was handed the item although the queue was closed before
+// it could run again.
+func probePopAfterClose(kind string, k int) bool {
+	if k < 1 {
+		k = 1
+	}
+	q := qadapt.New(kind, 0, 0)
+	sched := vkit.NewSched()
+	type out struct {
+		closed bool
+		err    error
+	}
+	outs := make([]out, k)
+	for i := 0; i < k; i++ {
+		i := i
+		sched.Go("probe-consumer", func() { _, outs[i].closed, outs[i].err = q.Pop() })
+		sched.MustQuiesce()
+	}
+	old := runtime.GOMAXPROCS(1)
+	sched.Go("probe-add-close", func() {
+		q.Add(qadapt.LaneReq, 1)
+		q.Close()
+	})
+	sched.MustQuiesce()
+	runtime.GOMAXPROCS(old)
+	gotItem := false
+	for i, op := range sched.Ops() {
+		if i < k && op.Done() && !outs[i].closed && outs[i].err == nil {
+			gotItem = true
+		}
+	}
+	q.Close()
+	return gotItem
 }
 
 func sameRets(a, b []ret) bool {
@@ -445,12 +571,13 @@ func ExecStress(c CaseStress) *vkit.Result {
 	}
 	sched := vkit.NewSched()
 	var (
-		accepted  atomic.Int64
-		prodDone  atomic.Int64
-		mu        sync.Mutex
-		acceptedV = map[int]bool{}
-		consumed  = make([][]int, len(c.Consumers))
-		problem   string
+		accepted    atomic.Int64
+		prodDone    atomic.Int64
+		closeCalled atomic.Bool
+		mu          sync.Mutex
+		acceptedV   = map[int]bool{}
+		consumed    = make([][]int, len(c.Consumers))
+		problem     string
 	)
 	note := func(f string, a ...any) {
 		mu.Lock()
@@ -504,6 +631,10 @@ func ExecStress(c CaseStress) *vkit.Result {
 					return
 				}
 				if closed {
+					// schedule-independent: "closed" may only be reported once Close has been called
+					if !closeCalled.Load() {
+						note("consumer %d was told the queue is closed although Close had not been called yet", ci)
+					}
 					return
 				}
 				consumed[ci] = append(consumed[ci], v)
@@ -515,6 +646,7 @@ func ExecStress(c CaseStress) *vkit.Result {
 		for accepted.Load() < int64(c.CloseAt) && prodDone.Load() < int64(len(c.Producers)) {
 			runtime.Gosched()
 		}
+		closeCalled.Store(true)
 		q.Close()
 	})
 	close(start)
